@@ -394,10 +394,34 @@ pub fn gen_init(c: &mut Choices, fam: FamId, secret: &[u8; 32]) -> Init {
     }
 }
 
+/// A history that may sign with the other CombinedKey variant (cross-scheme signer).
+pub fn gen_history_cross(c: &mut Choices) -> History {
+    let mut h = gen_history(c, None);
+    if matches!(h.fam, FamId::CombinedSecp | FamId::CombinedEd) && h.keys.len() > 1 && c.chance(160) {
+        // keys[1..] may belong to the other scheme; secrets valid for secp are valid for ed25519 too
+        let other_pool = pool().of(Scheme::Secp);
+        for i in 1..h.keys.len() {
+            if c.bool() {
+                if !crate::refmodel::crypto::secp_secret_valid(&h.keys[i].0) {
+                    h.keys[i] = Secret(other_pool[i % other_pool.len()]);
+                }
+                h.alt_keys.push(i);
+            }
+        }
+    }
+    h
+}
+
 pub fn gen_history(c: &mut Choices, fam: Option<FamId>) -> History {
     let fam = fam.unwrap_or_else(|| gen_fam(c));
     let keys = gen_keys(c, fam);
-    let init = gen_init(c, fam, &keys[0].0);
+    let mut init = gen_init(c, fam, &keys[0].0);
+    if keys.len() > 1 && c.chance(40) {
+        // the same Builder value used for two builds
+        if let Init::Builder { calls } = init {
+            init = Init::BuilderReuse { calls, first: c.below(keys.len()) };
+        }
+    }
     let n = c.below(13);
     let nk = keys.len();
     let mut ops: Vec<Op> = Vec::with_capacity(n);
@@ -411,7 +435,7 @@ pub fn gen_history(c: &mut Choices, fam: Option<FamId>) -> History {
             ops.push(gen_op(c, fam, nk));
         }
     }
-    History { fam, keys, init, ops, fault_at: None }
+    History { fam, keys, init, ops, fault_at: None, alt_keys: vec![] }
 }
 
 // ---------------------------------------------------------------------------------------------
@@ -538,7 +562,7 @@ pub fn exhaustive(fam: FamId, depth: usize) -> impl Iterator<Item = History> + S
                 ops.push(alpha[idx % alpha.len()].clone());
                 idx /= alpha.len();
             }
-            History { fam, keys: keys.clone(), init: init.clone(), ops, fault_at: None }
+            History { fam, keys: keys.clone(), init: init.clone(), ops, fault_at: None, alt_keys: vec![] }
         })
     })
 }
